@@ -16,7 +16,8 @@ interior points of the parts of resolution 2-4 cells that lie beyond a face edge
 into), on every face. Oracle: area on the sphere of the image region (each edge subdivided 32 times before \
 unprojection, independent fan integrator) / planar area == 4 pi / (12 face areas) to 1e-4. non-trivial = centre within \
 0.02 of a seam, edge, vertex or face centre, or in the reflected margin; distinct by the probe's bits; bucket coverage \
-(face x sector x side) in the histogram.";
+(face x sector x side) in the histogram. A second section lays tiny probes (1e-7..1e-5) directly against the seams and \
+face edges (gap 1e-13..1e-8, one probe edge parallel to the seam), from either side.";
 
 pub fn area_constant() -> f64 {
     let face_area = 2.5 * R_VERTEX * R_VERTEX * (72f64).to_radians().sin();
@@ -171,6 +172,95 @@ fn check_case(case: &Case, st: &mut Stats) -> Result<(), String> {
     Ok(())
 }
 
+/// Tiny probes lying directly against a seam (one of the 10 rays from the face centre, or a face
+/// edge from either side): one edge of the probe runs parallel to the seam at a distance of
+/// 10^log_gap, the rest of it lies away from the seam. A map that squeezes or collapses a thin band
+/// next to a seam moves that whole edge.
+#[derive(Debug, Clone)]
+pub struct SeamProbe {
+    pub face: u8,
+    /// 0..9: ray k*36deg; 10..14: face edge of sector pair k-10, inner side; 15..19: outer side (margin)
+    pub seam: u8,
+    pub along: f64,
+    pub log_gap: f64,
+    pub log_h: f64,
+    pub left: bool,
+}
+
+fn seam_probe_json(p: &SeamProbe) -> Value {
+    json!({"face": p.face, "seam": p.seam, "along": p.along, "log_gap": p.log_gap, "log_h": p.log_h, "left": p.left})
+}
+fn seam_probe_from_json(v: &Value) -> Option<SeamProbe> {
+    Some(SeamProbe {
+        face: v["face"].as_u64()? as u8,
+        seam: v["seam"].as_u64()? as u8,
+        along: v["along"].as_f64()?,
+        log_gap: v["log_gap"].as_f64()?,
+        log_h: v["log_h"].as_f64()?,
+        left: v["left"].as_bool()?,
+    })
+}
+
+fn check_seam_probe(p: &SeamProbe, st: &mut Stats) -> Result<(), String> {
+    let h = 10f64.powf(p.log_h);
+    let gap = 10f64.powf(p.log_gap);
+    // seam line: point o on it, unit direction u along it, unit normal n pointing to the probe's side
+    let (o, u, mut n, label) = if p.seam < 10 {
+        let g = std::f64::consts::PI / 5.0 * p.seam as f64;
+        let rho = if p.seam % 2 == 0 { 0.05 + (R_EDGE - 0.1) * p.along } else { 0.05 + (R_VERTEX - 0.1) * p.along };
+        ([rho * g.cos(), rho * g.sin()], [g.cos(), g.sin()], [-g.sin(), g.cos()], "ray")
+    } else {
+        // face edge with outward normal at angle 72k degrees; along the edge within 80% of its half-length
+        let k = (p.seam - 10) % 5;
+        let g = std::f64::consts::TAU / 5.0 * k as f64;
+        let half = R_EDGE * (std::f64::consts::PI / 5.0).tan();
+        let a = (2.0 * p.along - 1.0) * 0.8 * half;
+        // keep away from the edge midpoint ray and the corners
+        let a = if a.abs() < 0.02 { 0.02f64.copysign(if a == 0.0 { 1.0 } else { a }) } else { a };
+        ([R_EDGE * g.cos() - a * g.sin(), R_EDGE * g.sin() + a * g.cos()], [-g.sin(), g.cos()], [g.cos(), g.sin()], if p.seam < 15 { "edge-inner" } else { "edge-outer" })
+    };
+    if p.seam < 10 {
+        if !p.left {
+            n = [-n[0], -n[1]];
+        }
+    } else if p.seam < 15 {
+        n = [-n[0], -n[1]]; // inner side of the face edge
+    }
+    // square-ish probe: edge parallel to the seam at distance gap, extending h away from it
+    let quad: Vec<P2> = vec![
+        [o[0] + n[0] * gap - u[0] * h * 0.5, o[1] + n[1] * gap - u[1] * h * 0.5],
+        [o[0] + n[0] * gap + u[0] * h * 0.5, o[1] + n[1] * gap + u[1] * h * 0.5],
+        [o[0] + n[0] * (gap + h) + u[0] * h * 0.5, o[1] + n[1] * (gap + h) + u[1] * h * 0.5],
+        [o[0] + n[0] * (gap + h) - u[0] * h * 0.5, o[1] + n[1] * (gap + h) - u[1] * h * 0.5],
+    ];
+    let planar = (poly_area2(&quad) / 2.0).abs();
+    let m = 16;
+    let mut ring: Vec<V3> = Vec::with_capacity(4 * m);
+    for i in 0..4 {
+        let a = quad[i];
+        let b = quad[(i + 1) % 4];
+        for j in 0..m {
+            let t = j as f64 / m as f64;
+            ring.push(api::inverse([a[0] + t * (b[0] - a[0]), a[1] + t * (b[1] - a[1])], p.face % 12).map_err(|e| format!("inverse failed: {}", e))?);
+        }
+    }
+    let ratio = ring_area(&ring).abs() / planar;
+    let k = area_constant();
+    let rel = (ratio / k - 1.0).abs();
+    st.fmax("seam-probe-area-ratio-relative-error", rel);
+    if !(rel <= 1e-4) {
+        return Err(format!(
+            "area ratio {:.9} instead of {:.9} (rel. error {:.3e} > 1e-4) for a probe of size {:.3e} lying {:.3e} from a seam ({} {}) on face {}, at planar {:?}",
+            ratio, k, rel, h, gap, label, p.seam, p.face % 12, o
+        ));
+    }
+    st.nontrivial(&(p.face, p.seam, o[0].to_bits(), p.log_gap.to_bits(), p.log_h.to_bits()));
+    st.hit(&format!("seam-probe:{}", label));
+    st.hit(&format!("seam-probe-gap:1e{:+03}", p.log_gap.floor() as i32));
+    st.sample(true, || json!({"seam_probe": seam_probe_json(p), "ratio": ratio}));
+    Ok(())
+}
+
 pub fn run(tier: Tier, seed: u64) -> Report {
     let mut rep = Report::new("C16", tier, seed, RULE);
     rep.assume("planar positions of real cells come from get_pentagon (pinned independently by C17); the image region's edges are sampled 32 times each");
@@ -196,7 +286,22 @@ pub fn run(tier: Tier, seed: u64) -> Report {
         check_case,
         case_json,
     );
-    rep.absorb("probes", r);
+    if !rep.absorb("probes", r) {
+        return rep;
+    }
+    let r = run_pbt(
+        "seam-probes",
+        seed,
+        tier.pick(20_000, 600_000),
+        || {
+            (0u8..12, 0u8..20, 0.0f64..1.0, -13.0f64..-8.0, -6.9f64..-5.0, any::<bool>())
+                .prop_map(|(face, seam, along, log_gap, log_h, left)| SeamProbe { face, seam, along, log_gap, log_h, left })
+                .boxed()
+        },
+        check_seam_probe,
+        seam_probe_json,
+    );
+    rep.absorb("seam-probes", r);
     let buckets = rep.stats.hist.keys().filter(|k| k.starts_with("bucket:")).count();
     rep.extra.insert("buckets_hit_of_240".into(), json!(buckets));
     rep
@@ -206,6 +311,7 @@ pub fn replay(section: &str, case: &Value) -> Option<Result<(), String>> {
     let mut st = Stats::default();
     Some(guarded(|| match section {
         "probes" => check_case(&case_from_json(case).ok_or("bad case")?, &mut st),
+        "seam-probes" => check_seam_probe(&seam_probe_from_json(case).ok_or("bad case")?, &mut st),
         _ => Err(format!("unknown section {}", section)),
     }))
 }
